@@ -127,6 +127,52 @@ theorem ctrVal_pos_iff {c : List (Int × Nat)} (hp : CtrPos c) (t : Int) : t ∈
       have h2 : p.1 = t := by simpa using List.find?_some hf
       exact List.mem_map.mpr ⟨p, h1, h2⟩
 
+/-- TIMING reports, for every type in range, the handled count modulo 2¹⁶, and nothing for a type out of range -/
+theorem timingEntries_val (cfg : Cfg) (c : List (Int × Nat)) (hn : (ctrKeys c).Nodup) (t : Int) :
+    ctrVal (timingEntries cfg c) t =
+      if 0 ≤ t ∧ t < cfg.maxTypes then u16 (ctrVal c t) else 0 := by
+  unfold timingEntries ctrVal
+  induction c with
+  | nil => simp [u16]
+  | cons p c ih =>
+    have hn' : (ctrKeys c).Nodup := by unfold ctrKeys at *; simp at hn; exact hn.2
+    have hnot : ∀ q ∈ c, q.1 ≠ p.1 := by
+      intro q hq e; unfold ctrKeys at hn; simp at hn; exact hn.1 q.2 (by rw [← e]; exact hq)
+    have ih := ih hn'
+    simp only [List.filter_cons, List.find?_cons]
+    by_cases hr : (decide (0 ≤ p.1) && decide (p.1 < cfg.maxTypes)) = true
+    · simp only [hr, if_true, List.map_cons, List.filter_cons]
+      by_cases hz : (u16 p.2 != 0) = true
+      · simp only [hz, if_true, List.find?_cons]
+        by_cases hpt : p.1 = t
+        · subst hpt
+          have hr' : 0 ≤ p.1 ∧ p.1 < cfg.maxTypes := by simpa using hr
+          simp [hr']
+        · have hpt' : (p.1 == t) = false := by simpa using hpt
+          simp only [hpt']; exact ih
+      · have hz' : (u16 p.2 != 0) = false := by simpa using hz
+        simp only [hz', Bool.false_eq_true, if_false]
+        by_cases hpt : p.1 = t
+        · subst hpt
+          have hr' : 0 ≤ p.1 ∧ p.1 < cfg.maxTypes := by simpa using hr
+          have hnone : c.find? (·.1 == p.1) = none := by
+            rw [List.find?_eq_none]; intro q hq; simpa using hnot q hq
+          have e0 : u16 0 = 0 := rfl
+          have hz'' : u16 p.2 = 0 := by simpa using hz'
+          rw [ih]; simp [hr', hnone, hz'', e0]
+        · have hpt' : (p.1 == t) = false := by simpa using hpt
+          simp only [hpt']; exact ih
+    · have hr' : (decide (0 ≤ p.1) && decide (p.1 < cfg.maxTypes)) = false := by simpa using hr
+      simp only [hr', Bool.false_eq_true, if_false]
+      by_cases hpt : p.1 = t
+      · subst hpt
+        have hnone : c.find? (·.1 == p.1) = none := by
+          rw [List.find?_eq_none]; intro q hq; simpa using hnot q hq
+        have hrr : ¬(0 ≤ p.1 ∧ p.1 < cfg.maxTypes) := by simpa using hr'
+        rw [ih]; simp [hrr]
+      · have hpt' : (p.1 == t) = false := by simpa using hpt
+        simp only [hpt']; exact ih
+
 /-! ## marks and tallies -/
 
 /-- apply the marks of `e` (newest first) to the counter `c`: every frame handled outside a statistics send is `+= 1` -/
